@@ -741,20 +741,20 @@ def _e6(ctx):
     _axi_lite_port_address(ctx)
 
 
-def _axi_lite_port_address(ctx):
+def _axi_lite_port_address(ctx, rid="E9"):
     """AXI-Lite SoCs reach the CSR bus / memories through axi_lite_to_simple: the port is addressed in bus words, the AXI-Lite
     address counts bytes.  Every value that can reach port_adr -- directly or through a register that is replayed later -- is the
     byte address of the accepted channel with the log2(bytes per word) low bits stripped, with one shift amount."""
     from ..rules_stream import fx_of
     from .. import q
     AL = "litex/soc/interconnect/axi/axi_lite.py"
-    ctx.rule("E9", "axi_lite_to_simple: port address = AXI-Lite byte address >> log2(bus bytes) on every path (immediate, and latched for a "
+    ctx.rule(rid, "axi_lite_to_simple: port address = AXI-Lite byte address >> log2(bus bytes) on every path (immediate, and latched for a "
                    "write whose data comes later); one shift amount, derived from the bus data width", min_sites=5)
     fx = fx_of(ctx, AL, func="axi_lite_to_simple")
     sh = fx.localdefs.get("adr_shift") if hasattr(fx, "localdefs") else None
     shift_txt = norm(sh) if sh is not None else None
     ok = shift_txt is not None and shift_txt.replace("bus_data_width", "axi_lite.data_width") == "log2_int(axi_lite.data_width // 8)"
-    ctx.ob("E9", AL, "axi_lite_to_simple", "adr_shift = log2_int(data_width // 8)", ok, "" if ok else f"adr_shift = {shift_txt}", sh if sh is not None else 0)
+    ctx.ob(rid, AL, "axi_lite_to_simple", "adr_shift = log2_int(data_width // 8)", ok, "" if ok else f"adr_shift = {shift_txt}", sh if sh is not None else 0)
 
     def word_address(v, depth=0):
         """None if `v` is a word address, else the reason"""
@@ -771,10 +771,10 @@ def _axi_lite_port_address(ctx):
             return None
         return "not a word address"
     drivers = fx.find(domain="comb", target="port_adr")
-    ctx.ob("E9", AL, "axi_lite_to_simple", "port_adr drivers:present", len(drivers) >= 3, f"{len(drivers)} drivers", 0)
+    ctx.ob(rid, AL, "axi_lite_to_simple", "port_adr drivers:present", len(drivers) >= 3, f"{len(drivers)} drivers", 0)
     for a in drivers:
         why = word_address(a.v)
-        ctx.ob("E9", AL, "axi_lite_to_simple", f"port_adr <= {a.v} @{a.state[1] if a.state else '-'} is a word address", why is None,
+        ctx.ob(rid, AL, "axi_lite_to_simple", f"port_adr <= {a.v} @{a.state[1] if a.state else '-'} is a word address", why is None,
                "" if why is None else f"{why}: a byte address is presented where the port expects the word index -- the access lands at 4x the "
                                       f"published offset (or outside the window)", a.line)
     # the channel whose address is used is the channel that is served
@@ -784,7 +784,7 @@ def _axi_lite_port_address(ctx):
             G = q.gformula(fx, a, inline=False)
             from .. import boolx as B
             ok = B.entails(G, B.A(want))
-            ctx.ob("E9", AL, "axi_lite_to_simple", f"{a.v} used only when {want}", ok, "" if ok else f"under {B.show(G)}", a.line)
+            ctx.ob(rid, AL, "axi_lite_to_simple", f"{a.v} used only when {want}", ok, "" if ok else f"under {B.show(G)}", a.line)
 
 
 
